@@ -49,6 +49,7 @@ type Delivery struct {
 	Raw      []byte           `json:"raw,omitempty"`
 	Mut      []Mutation       `json:"mut,omitempty"`
 	DupOf    int              `json:"dup_of,omitempty"` // 1+ID of the delivery this one duplicates
+	Early    bool             `json:"early,omitempty"` // sent as soon as the protocol's socket is bound, while the collector is still starting
 	Probe    bool             `json:"probe,omitempty"`
 	BadHeader bool            `json:"bad_header,omitempty"` // Raw is a datagram whose header must be rejected: nothing decoded, counted or published
 
@@ -118,6 +119,7 @@ type PipeObs struct {
 	SignalAt   time.Duration
 	// StallAfterSignal: injected stall time (all tasks) between the signal and the end of the run
 	StallAfterSignal time.Duration
+	EarlyDelivered   int // datagrams delivered before the collector had finished starting
 	stallAtSignal    time.Duration
 	Signaled   bool
 	Stop       string
@@ -534,14 +536,25 @@ func runPipe(p *PipePlan, ch *simrt.Choices, trace bool, adopt map[string][]byte
 			for _, i := range mine {
 				d := &p.Dels[i]
 				simrt.Yield(-21)
-				<-gates[d.Phase]
-				simrt.Yield(-21)
-				wait := opened[d.Phase] + time.Duration(d.AtUs)*time.Microsecond - sim.Now()
-				if d.AbsUs > 0 {
-					wait = time.Duration(d.AbsUs)*time.Microsecond - sim.Now()
-				}
-				if wait > 0 {
-					simrt.Sleep(wait)
+				if d.Early && d.Phase == 0 {
+					// traffic that is already flowing while the collector starts: the
+					// datagram is sent the moment its port is bound
+					for tries := 0; sim.Net.Sock(port) == nil && tries < 100000 && !sim.Exited; tries++ {
+						simrt.Sleep(50 * time.Microsecond)
+					}
+					if sim.Net.Sock(port) != nil && !obs.Booted {
+						obs.EarlyDelivered++
+					}
+				} else {
+					<-gates[d.Phase]
+					simrt.Yield(-21)
+					wait := opened[d.Phase] + time.Duration(d.AtUs)*time.Microsecond - sim.Now()
+					if d.AbsUs > 0 {
+						wait = time.Duration(d.AbsUs)*time.Microsecond - sim.Now()
+					}
+					if wait > 0 {
+						simrt.Sleep(wait)
+					}
 				}
 				ex := &p.Exporters[d.Exporter]
 				ok := sim.Net.Deliver(port, simrt.Dgram{ID: d.ID, Src: srcAddr(ex), Data: d.payload})
@@ -550,7 +563,11 @@ func runPipe(p *PipePlan, ch *simrt.Choices, trace bool, adopt map[string][]byte
 					// model relies on (templates), a probe or a datagram with an
 					// exact expectation of its own is sent again until it fits -
 					// plain data datagrams are simply lost (not received)
-					for tries := 0; !ok && tries < 5000 && sim.Net.Sock(port) != nil; tries++ {
+					limit := 5000
+					if d.Early {
+						limit = 400000 // the read loop starts when the collector has finished starting (slow disk)
+					}
+					for tries := 0; !ok && tries < limit && sim.Net.Sock(port) != nil; tries++ {
 						simrt.Sleep(100 * time.Microsecond)
 						ok = sim.Net.Deliver(port, simrt.Dgram{ID: d.ID, Src: srcAddr(ex), Data: d.payload})
 					}
@@ -884,6 +901,7 @@ func fillRunOut(out *RunOut, p *PipePlan, obs *PipeObs) {
 	if p.Profile != "" && p.Profile != "clean" {
 		out.Probes["profile:"+p.Profile]++
 	}
+	out.Probes["delivered-while-the-collector-was-starting"] += obs.EarlyDelivered
 	out.Probes["published"] += len(obs.Published)
 	out.Probes["received"] += len(obs.Recv)
 	out.Probes["raw-packets-mirrored"] += len(obs.Raw)
